@@ -165,6 +165,52 @@ func init() {
 	nameModels["verif_same"] = func(ex *Exec, fn *ssa.Function, args []Value) Value {
 		return ex.deepEq(args[0], args[1], 0)
 	}
+	// codec model: verif_box(ptr) files a deep copy of *ptr and returns a 3-byte token; verif_unbox(token, ptr) assigns a
+	// deep copy of the filed value to *ptr (Marshal/Unmarshal as box/unbox; the wire encoding is outside the claim)
+	nameModels["verif_box"] = func(ex *Exec, fn *ssa.Function, args []Value) Value {
+		v := args[0]
+		if i, ok := v.(Iface); ok {
+			v = i.v
+		}
+		p, ok := v.(*Value)
+		if !ok || p == nil {
+			ex.incon("verif_box: argument must be a non-nil pointer (%T)", v)
+		}
+		ex.boxes = append(ex.boxes, ex.deepCopy(*p, map[*Value]*Value{}))
+		id := len(ex.boxes) - 1
+		return SliceV{ex.ctx.Int(0xB0), ex.ctx.Int(int64(id >> 8)), ex.ctx.Int(int64(id & 255))}
+	}
+	nameModels["verif_unbox"] = func(ex *Exec, fn *ssa.Function, args []Value) Value {
+		bz, ok := args[0].(SliceV)
+		if !ok || len(bz) != 3 {
+			ex.incon("verif_unbox: not a box token (%T len %d)", args[0], len(bz))
+		}
+		var id int64
+		for i, b := range bz {
+			t, ok := b.(*Term)
+			if !ok || !t.isConst {
+				ex.incon("verif_unbox: symbolic token byte")
+			}
+			if i > 0 {
+				id = id<<8 | t.cInt.Int64()
+			} else if t.cInt.Int64() != 0xB0 {
+				ex.incon("verif_unbox: not a box token")
+			}
+		}
+		if id < 0 || int(id) >= len(ex.boxes) {
+			ex.incon("verif_unbox: unknown token %d", id)
+		}
+		v := args[1]
+		if i, ok := v.(Iface); ok {
+			v = i.v
+		}
+		p, ok := v.(*Value)
+		if !ok || p == nil {
+			ex.incon("verif_unbox: destination must be a non-nil pointer (%T)", v)
+		}
+		*p = ex.deepCopy(ex.boxes[id], map[*Value]*Value{})
+		return nil
+	}
 	nameModels["verif_symbolic"] = func(ex *Exec, fn *ssa.Function, args []Value) Value {
 		return ex.ctx.tTrue
 	}
